@@ -87,6 +87,14 @@ def gen_calls(rng, spec):
             calls.append(["retarget", rng.randrange(spec["m"]), rng.choice([0.5, -1.0, 3.0, -4.0]), rng.choice([None, 1e-12])])
         else:
             calls.append(["step", rng.choice([2, 4]), True, False])
+    # failing calls: the user's action raises at its k-th evaluation inside one call (a transient model failure);
+    # the call may raise, the log must stay truthful and usable afterwards
+    if rng.random() < 0.35:
+        for _ in range(rng.randrange(1, 3)):
+            pos = rng.randrange(len(calls) + 1)
+            inner = rng.choice([["step", rng.choice([1, 2]), True, False], ["solve"], ["tag", "t"], ["reload", rng.randrange(0, 4)],
+                                ["step", 1, False, False]])
+            calls.insert(pos, ["faulty", rng.choice([1, 1, 2, 3, 5]), inner])
     return calls
 
 
@@ -109,6 +117,13 @@ def check_problem(spec, calls, counters, violations):
     note_rows()
     for call in calls:
         note_rows()
+        if call[0] == "faulty":
+            S.fault_at = S.calls + call[1]
+            S.persistent = False
+            call = call[2]
+            counters["calls_with_injected_action_fault"] = counters.get("calls_with_injected_action_fault", 0) + 1
+        else:
+            S.fault_at = None
         k = call[0]
         try:
             if k == "step":
@@ -153,6 +168,7 @@ def check_problem(spec, calls, counters, violations):
             counters.setdefault("calls_raised", {})
             kk = "%s:%s" % (k, type(exc).__name__)
             counters["calls_raised"][kk] = counters["calls_raised"].get(kk, 0) + 1
+        S.fault_at = None
         note_rows()
         if issues:
             break
